@@ -193,8 +193,20 @@ def shape_direct(g, per_obs=True):
 
 
 SHAPES = {"hier": shape_hier, "diamond": shape_diamond, "flat": shape_flat}
-SHAPES_IFACE = {**SHAPES, "direct": shape_direct}
-SHAPES_C01 = {**SHAPES, "weakdist": shape_weakdist}
+SHAPES_IFACE = {**SHAPES, "direct": shape_direct}  # + "weakdist" (added below, after shape_weakdist exists)
+def shape_weakdist_deep(g, per_obs=True):
+    """a weak variable with a distribution whose VALUE path (a -> mid -> w) is deeper than its distribution's parameter path (b): the
+    only thing that orders the distribution after the value calculation is the edge from the evaluation point (`Dist.at`)"""
+    a = g.var("a", dist=g.dist("Pa"), parameter=True)
+    b = g.var("b")
+    mid = g.var("mid", value=g.calc("f_mid", a))
+    w = g.var("w", value=g.calc("f_w", mid), dist=g.dist("Dw", b, per_obs=per_obs), observed=True)
+    return [w]
+
+
+SHAPES_C01 = {**SHAPES, "weakdist": shape_weakdist, "weakdist_deep": shape_weakdist_deep}
+SHAPES_IFACE["weakdist"] = shape_weakdist
+SHAPES_IFACE["weakdist_deep"] = shape_weakdist_deep
 
 
 # ---------------------------------------------------------------------------------------------
@@ -263,3 +275,18 @@ def install_tfp_models(ip):
         ip.models[f"{mod}.TransformedDistribution"] = lambda ip_, d, b, **kw: transformed_distribution(ip_, d, b, **kw)
     ip.models["isinstance:builtins.type"] = lambda ip_, x: isinstance(x, RepoClass) or (isinstance(x, PyObj) and bool(x.attrs.get("is_type")))
     ip.models["builtins.issubclass"] = lambda ip_, x, cls: isinstance(x, PyObj) and x.attrs.get("kind") == "bijector_class"
+
+
+def shape_transformed(g, per_obs=True):
+    """a parameter re-parameterised with Var.transform() and the distribution's DEFAULT bijector, which depends on another model variable
+    (p): the back-transformation must use the bijector parameters of the state at hand"""
+    install_tfp_models(g.ip)
+    p = g.var("p")
+    d = g.ip.call(g.Dist, [dist_fn_tfp("D")], {"rate": p})
+    x = g.var("x", dist=d, parameter=True)
+    g.ip.call(method(g.ip, x, "transform"), [], {})
+    y = g.var("y", dist=g.dist("Lik", x, per_obs=per_obs), observed=True)
+    return [y]
+
+
+SHAPES_IFACE["transformed"] = shape_transformed
